@@ -626,7 +626,7 @@ fn iter_array(
         .map(|l| ::std::cmp::min(l, range.len()))
         .unwrap_or_else(|| range.len() - offset);
     range.drain(0..offset);
-    range.resize(limit, Value::Nil.into());
+    range.truncate(limit);
 
     if reversed {
         range.reverse();
